@@ -1657,6 +1657,181 @@ fn history_case(s: &mut Session, steps: &[HStep]) {
     s.case("build.hist", format!("hist {}", spec.join(" ")), resp);
 }
 
+// ---------------------------------------------------------------- legal but non-optimal flag encodings
+
+/// what one point's flag says about the way its deltas are stored (the writer always picks the shortest; a font
+/// from elsewhere need not): `wide` stores a zero / small delta in a longer form than necessary
+fn coord_flag_and_bytes(d: i32, short_bit: u8, same_bit: u8, wide: u64) -> (u8, Vec<u8>) {
+    if d == 0 && wide == 0 {
+        (same_bit, vec![])
+    } else if d.abs() <= 255 && wide <= 1 {
+        (short_bit | if d >= 0 { same_bit } else { 0 }, vec![d.unsigned_abs() as u8])
+    } else {
+        (0, (d as i16).to_be_bytes().to_vec())
+    }
+}
+
+/// A simple glyph's bytes with the flag array cut into arbitrary legal runs: single flags, REPEAT with count 0
+/// (two bytes for one point), count 1, short and long repeats, in any mixture. Returns the bytes and, for the
+/// distribution, where the two-bytes-per-point pieces sit.
+fn encode_nonoptimal(rng: &mut Rng, g: &SG) -> (Vec<u8>, Vec<&'static str>) {
+    let pts: Vec<(i16, i16, bool)> = g.contours.iter().flatten().copied().collect();
+    let wide_p = *rng.pick(&[0u64, 0, 0, 8, 3]);
+    let (mut lx, mut ly) = (0i32, 0i32);
+    let mut flags: Vec<u8> = vec![];
+    let (mut xs, mut ys) = (vec![], vec![]);
+    for p in &pts {
+        let (dx, dy) = (p.0 as i32 - lx, p.1 as i32 - ly);
+        lx = p.0 as i32;
+        ly = p.1 as i32;
+        let wx = if wide_p > 0 && rng.below(wide_p) == 0 { 1 + rng.below(2) } else { 0 };
+        let wy = if wide_p > 0 && rng.below(wide_p) == 0 { 1 + rng.below(2) } else { 0 };
+        let (fx, bx) = coord_flag_and_bytes(dx, 0x02, 0x10, wx);
+        let (fy, by) = coord_flag_and_bytes(dy, 0x04, 0x20, wy);
+        flags.push(p.2 as u8 | fx | fy);
+        xs.extend(bx);
+        ys.extend(by);
+    }
+    // cut every maximal run of equal flags into pieces
+    let style = rng.below(5); // 0: every point REPEAT/0, 1: no repeats at all, else mixed
+    let mut stream: Vec<u8> = vec![];
+    let mut tags: Vec<&'static str> = vec![];
+    let mut i = 0;
+    while i < flags.len() {
+        let mut j = i;
+        while j < flags.len() && flags[j] == flags[i] {
+            j += 1;
+        }
+        let mut left = j - i;
+        while left > 0 {
+            let l = match style {
+                0 | 1 => 1,
+                _ => match rng.below(6) {
+                    0 | 1 => 1,
+                    2 => 2,
+                    3 => 1 + rng.below(5) as usize,
+                    _ => left,
+                },
+            }
+            .min(left)
+            .min(256);
+            let pos = if i == 0 && left == j - i { "first" } else if j == flags.len() && l == left { "last" } else { "middle" };
+            let repeat = match style {
+                0 => true,
+                1 => false,
+                _ => l > 1 || rng.chance(1, 2),
+            };
+            if repeat {
+                stream.push(flags[i] | 0x08);
+                stream.push((l - 1) as u8);
+                tags.push(match (l, pos) {
+                    (1, "first") => "repeat-count-0:first",
+                    (1, "last") => "repeat-count-0:last",
+                    (1, _) => "repeat-count-0:middle",
+                    (2, "first") => "repeat-count-1:first",
+                    (2, "last") => "repeat-count-1:last",
+                    (2, _) => "repeat-count-1:middle",
+                    (l, _) if l > 100 => "repeat-long",
+                    _ => "repeat-short",
+                });
+            } else {
+                stream.push(flags[i]);
+                tags.push("single");
+            }
+            left -= l;
+        }
+        i = j;
+    }
+    let mut out = vec![];
+    out.extend_from_slice(&(g.contours.len() as i16).to_be_bytes());
+    for v in g.bbox {
+        out.extend_from_slice(&v.to_be_bytes());
+    }
+    let mut cur = 0usize;
+    for c in &g.contours {
+        cur += c.len();
+        out.extend_from_slice(&((cur - 1) as u16).to_be_bytes());
+    }
+    out.extend_from_slice(&(g.instr.len() as u16).to_be_bytes());
+    out.extend_from_slice(&g.instr);
+    out.extend(stream);
+    out.extend(xs);
+    out.extend(ys);
+    if out.len() % 2 == 1 {
+        out.push(0);
+    }
+    (out, tags)
+}
+
+/// a two-glyph font (empty + the given raw glyph bytes)
+fn font_with_raw(glyph_bytes: &[u8], x_min: i16) -> Result<Vec<u8>, String> {
+    use write_fonts::tables::{head::Head, hhea::Hhea, hmtx::Hmtx, hmtx::LongMetric, maxp::Maxp};
+    let loca = Loca::new(vec![0, 0, glyph_bytes.len() as u32]);
+    let head = Head { units_per_em: 1000, index_to_loc_format: loca.format() as i16, ..Default::default() };
+    let hmtx = Hmtx::new(vec![LongMetric::new(500, 0), LongMetric::new(500, x_min)], vec![]);
+    let mut fb = write_fonts::FontBuilder::new();
+    fb.add_table(&head).map_err(|e| e.to_string())?;
+    fb.add_table(&Maxp::new(2)).map_err(|e| e.to_string())?;
+    fb.add_table(&Hhea { number_of_h_metrics: 2, ..Default::default() }).map_err(|e| e.to_string())?;
+    fb.add_table(&hmtx).map_err(|e| e.to_string())?;
+    fb.add_raw(font_types::Tag::new(b"glyf"), glyph_bytes.to_vec());
+    fb.add_table(&loca).map_err(|e| e.to_string())?;
+    Ok(fb.build())
+}
+
+fn draw_unscaled(data: &[u8]) -> Result<String, String> {
+    let font = FontRef::new(data).map_err(|e| e.to_string())?;
+    let og = font.outline_glyphs().get(GlyphId::new(1)).ok_or("no outline")?;
+    let mut pen = CmdPen::default();
+    og.draw(skrifa::outline::DrawSettings::unhinted(skrifa::instance::Size::unscaled(), skrifa::instance::LocationRef::default()), &mut pen)
+        .map_err(|e| format!("draw error: {e}"))?;
+    Ok(pen.0.join(" "))
+}
+
+/// Oracles on the real code: a glyph whose flag array is legal but not the shortest one decodes to the same points
+/// with `points()`, with `read_points_fast`, and draws (skrifa) like the writer's encoding of the same glyph.
+fn nonoptimal_case(s: &mut Session, rng: &mut Rng, g: &SG) {
+    let pts: Vec<(i16, i16, bool)> = g.contours.iter().flatten().copied().collect();
+    if pts.is_empty() || g.contours.iter().any(|c| c.is_empty()) {
+        return;
+    }
+    let (bytes, tags) = encode_nonoptimal(rng, g);
+    for t in &tags {
+        s.count(&format!("nonoptimal:{t}"));
+    }
+    s.case("g.read.nonoptimal", format!("g.read {}", hex(&bytes)), show_glyph_read(&bytes));
+    let input = || format!("simple glyph bytes {} (= S {})", hex(&bytes), sg_spec(g).chars().take(1500).collect::<String>());
+    let r = catch(|| rglyf::SimpleGlyph::read(FontData::new(&bytes)).map(|r| {
+        let slow: Vec<(i16, i16, bool)> = r.points().map(|p| (p.x, p.y, p.on_curve)).collect();
+        let n = r.num_points();
+        let mut fp = vec![read_fonts::types::Point::<i32>::default(); n];
+        let mut ff = vec![rglyf::PointFlags::default(); n];
+        let fast = r.read_points_fast(&mut fp, &mut ff).map(|()| fp.iter().zip(ff.iter()).map(|(p, f)| (p.x, p.y, f.is_on_curve())).collect::<Vec<_>>());
+        (slow, fast.map_err(|e| e.to_string()))
+    }));
+    let want32: Vec<(i32, i32, bool)> = pts.iter().map(|p| (p.0 as i32, p.1 as i32, p.2)).collect();
+    match &r {
+        Ok(Ok((slow, fast))) => {
+            s.oracle("nonoptimal-flags:points()=the-encoded-points", *slow == pts, input, || format!("{} points, want {}; first difference at {:?}", slow.len(), pts.len(), slow.iter().zip(pts.iter()).position(|(a, b)| a != b)));
+            s.oracle(
+                "nonoptimal-flags:read_points_fast=points()",
+                fast.as_ref().map_or(false, |f| *f == want32),
+                input,
+                || match fast {
+                    Err(e) => format!("read_points_fast returned Err({e}); points() yields {} points", slow.len()),
+                    Ok(f) => format!("first difference at point {:?}", f.iter().zip(want32.iter()).position(|(a, b)| a != b)),
+                },
+            );
+        }
+        other => s.oracle("nonoptimal-flags:glyph-parses", false, input, || format!("{:?}", other.as_ref().map(|r| r.as_ref().map(|_| ()).map_err(|e| e.to_string())))),
+    }
+    // skrifa draws through the fast decoder
+    let drawn = catch(|| font_with_raw(&bytes, g.bbox[0]).and_then(|d| draw_unscaled(&d)));
+    let canon = catch(|| font_with(&sg_real(g)).and_then(|d| draw_unscaled(&d)));
+    let same = matches!((&drawn, &canon), (Ok(Ok(a)), Ok(Ok(b))) if a == b);
+    s.oracle("nonoptimal-flags:skrifa-draws-like-the-writer's-encoding", same, input, || format!("non-optimal encoding draws {:?}, the writer's encoding draws {:?}", drawn.as_ref().map(|r| r.as_ref().map(|s| s.chars().take(300).collect::<String>())), canon.as_ref().map(|r| r.as_ref().map(|s| s.chars().take(300).collect::<String>()))));
+}
+
 // ---------------------------------------------------------------- reader fuzz
 
 fn mutate(rng: &mut Rng, bytes: &[u8]) -> Vec<u8> {
@@ -2044,6 +2219,31 @@ fn run(cfg: &Config, s: &mut Session) {
     ] {
         path_case(s, &kurbo::BezPath::from_svg(svg).unwrap());
         draw_case(s, &kurbo::BezPath::from_svg(svg).unwrap());
+    }
+    // --- legal but non-optimal flag arrays (up to two flag bytes per point): both decoders and the draw agree
+    {
+        // the three-point glyph whose flags are all REPEAT with count 0
+        let g = SG { bbox: [0, 0, 500, 500], instr: vec![], contours: vec![vec![(1, 4, true), (3, 9, true), (6, 15, true)]] };
+        for _ in 0..6 {
+            nonoptimal_case(s, &mut rng, &g);
+        }
+    }
+    for k in 0..300 * scale {
+        let mut g = if k % 3 == 0 {
+            let nruns = 1 + rng.below(4) as usize;
+            gen_simple_runs(&mut rng, nruns, &[1, 2, 3, 5, 40, 256, 257, 300, 520])
+        } else {
+            gen_simple_random(&mut rng, 14)
+        };
+        g.contours.retain(|c| !c.is_empty());
+        for c in g.contours.iter_mut() {
+            for p in c.iter_mut() {
+                p.0 = p.0.clamp(-16000, 16000);
+                p.1 = p.1.clamp(-16000, 16000);
+            }
+        }
+        g.instr.truncate(8);
+        nonoptimal_case(s, &mut rng, &g);
     }
     // --- builder histories with failures in the middle (the caller carries on after every Err)
     {
